@@ -32,6 +32,8 @@ LAYOUT_ATTRS = {"strides", "flags", "data", "ctypes", "base", "tobytes", "tostri
                 "dtype", "newbyteorder", "byteswap", "getfield", "dump", "dumps", "tofile"}
 # .dtype is layout/dtype revealing only when it influences control flow or values; it is listed but
 # reported only when used in a comparison or as a dtype= argument (see _layout_events)
+# parameters that are real valued by the package's own vocabulary (rule-instance table, one line of reason each)
+REAL_PARAMS = {"coef": "the pair (b, m) of real line coefficients produced by the fits (m is a quotient of differences)"}
 LIKE_FUNCS = {"empty_like", "zeros_like", "ones_like", "full_like", "copy", "array", "asarray"}
 
 def _box(roots):
@@ -91,6 +93,10 @@ class MutationAnalysis:
             changed = False
             for q, fi in self.funcs.items():
                 names = self.float_names[q]
+                for p_ in fi.signature.positional if hasattr(fi, "signature") else ():
+                    if p_ in REAL_PARAMS and p_ not in names:
+                        names.add(p_)
+                        changed = True
                 for st in ast.walk(fi.node):
                     if isinstance(st, ast.Assign):
                         if self._is_float_expr(fi, st.value, names):
@@ -416,6 +422,12 @@ class MutationAnalysis:
                             roots = self._taint(fi, sub.args[0], st)
                             if roots:
                                 emit("write", roots, sub, f"np.{nm} writes its first argument")
+                        if nm == "full_like" and len(sub.args) >= 2 and "numpy" in modn and not any(kw.arg == "dtype" for kw in sub.keywords):
+                            # np.full_like(a, v): an array of a's dtype holding v everywhere - a fractional v is truncated when a is integer typed
+                            like_ = self._dtype_roots(fi, sub.args[0], st)
+                            if like_ and self._is_float_expr(fi, sub.args[1], self.float_names.get(fi.qualname, set())):
+                                emit("dtype", frozenset(_unbox(like_)), sub,
+                                     "np.full_like fills an array that inherits the argument's dtype with a float value (an integer argument truncates it)")
                         if nm == "shuffle" and sub.args:
                             roots = self._taint(fi, sub.args[0], st)
                             if roots:
